@@ -1,0 +1,55 @@
+//go:build verif
+
+package constants
+
+// Contracts checked by /verif (gvc). This file contains comments only and is compiled only with -tags verif.
+// Property C11: for every epoch the rewards credited by the pillar, sentinel, staking and liquidity contracts never exceed
+// that epoch's protocol emission. The emission tables and the percentage split are pure integer functions of the epoch:
+// they are specified for all 2^64 epochs, and the split is proved to stay within the emission (lemma emission_split).
+
+// emission per epoch: the table entry of the epoch's 30-epoch tick, the last entry from then on
+//@ spec znnEmission(epoch int) int = NetworkZnnRewardConfig[min(epoch / 30, len(NetworkZnnRewardConfig) - 1)]
+//@ spec qsrEmission(epoch int) int = NetworkQsrRewardConfig[min(epoch / 30, len(NetworkQsrRewardConfig) - 1)]
+
+//@ func NetworkZnnRewardPerEpoch(epoch)
+//@   safety
+//@   ensures[table] result == znnEmission(epoch)
+//@   ensures[positive] 0 < result && result <= 1440000000000
+//@   modifies nothing
+
+//@ func NetworkQsrRewardPerEpoch(epoch)
+//@   safety
+//@   ensures[table] result == qsrEmission(epoch)
+//@   ensures[positive] 0 < result && result <= 2000000000000
+//@   modifies nothing
+
+//@ func PillarRewardPerMomentum(epoch) -> (delegation, producing)
+//@   ensures[delegation] delegation != nil && val(delegation) == znnEmission(epoch) * 24 / 100 / 8640
+//@   ensures[producing] producing != nil && val(producing) == znnEmission(epoch) * 50 / 100 / 8640
+//@   modifies nothing
+
+//@ func SentinelRewardForEpoch(epoch) -> (znn, qsr)
+//@   ensures[znn] znn != nil && val(znn) == znnEmission(epoch) * 13 / 100
+//@   ensures[qsr] qsr != nil && val(qsr) == qsrEmission(epoch) * 25 / 100
+//@   modifies nothing
+
+//@ func LiquidityRewardForEpoch(epoch) -> (znn, qsr)
+//@   ensures[znn] znn != nil && val(znn) == znnEmission(epoch) * 13 / 100
+//@   ensures[qsr] qsr != nil && val(qsr) == qsrEmission(epoch) * 25 / 100
+//@   modifies nothing
+
+//@ func StakeQsrRewardPerEpoch(epoch)
+//@   ensures[qsr] result != nil && val(result) == qsrEmission(epoch) * 50 / 100
+//@   modifies nothing
+
+// The per-contract amounts of one epoch add up to at most the epoch's emission: pillars receive (delegation + producing)
+// per momentum for at most MomentumsPerEpoch momentums.
+//@ lemma emission_split
+//@   vars epoch uint64
+//@   let p = PillarRewardPerMomentum(epoch)
+//@   let s = SentinelRewardForEpoch(epoch)
+//@   let l = LiquidityRewardForEpoch(epoch)
+//@   let k = StakeQsrRewardPerEpoch(epoch)
+//@   assert[znn] (val(p.0) + val(p.1)) * 8640 + val(s.0) + val(l.0) <= znnEmission(epoch)
+//@   assert[qsr] val(k) + val(s.1) + val(l.1) <= qsrEmission(epoch)
+//@   assert[nonnegative] val(p.0) >= 0 && val(p.1) >= 0 && val(s.0) >= 0 && val(s.1) >= 0 && val(l.0) >= 0 && val(l.1) >= 0 && val(k) >= 0
